@@ -2,7 +2,8 @@
 
 Lifecycle.tla (FailureLeavesNoOutput, exhaustively checked on the intended design; violated by TLC
 when CleanupOnFailure = FALSE).  Replay: (a) hook-placed error/panic faults at every phase boundary
-of the link x prior output {absent, file} x write modes x threads x fork, (b) natural failures that
+of the link x prior output {absent, file} x write modes x threads x fork, (b) links that succeed but whose inputs were
+modified while they ran (the failure comes after the complete output was written), (c) natural failures that
 need no hook (undefined symbol, duplicate symbol, failing ASSERT in a linker script, relocation
 overflow, missing input).  After every process of the link has exited the output path must hold
 nothing, or the previous file untouched (same inode, same bytes).
@@ -18,7 +19,7 @@ META = {
     "ready": True,
     "level": "fault_enumeration",
     "technique": "TLA+ life-cycle model checked by TLC (FailureLeavesNoOutput); enumerated failure points replayed into the real binary (hook-placed errors/panics and natural link failures) with a before/after snapshot of the output path",
-    "level_text": "Every phase boundary x {error, panic} x prior output {absent, existing file} x write mode {default, --update-in-place, --no-update-in-place} x {executable, shared} x threads x fork is enumerated from the model; a seeded sample (all in thorough) is replayed into the real binary and the output path classified (absent / old inode untouched / zero-filled / partial / complete). Natural failures (undefined/duplicate symbol, ASSERT, overflow, missing input) are run without any hook.",
+    "level_text": "Every phase boundary x {error, panic} x prior output {absent, existing file} x write mode {default, --update-in-place, --no-update-in-place} x {executable, shared} x threads x fork is enumerated from the model; a seeded sample (all in thorough) is replayed into the real binary and the output path classified (absent / old inode untouched / zero-filled / partial / complete). Links whose input is really modified at a pause point after each phase (failure after a complete write) are replayed the same way. Natural failures (undefined/duplicate symbol, ASSERT, overflow, missing input) are run without any hook.",
     "level_note": "Asynchronous kills are outside the property's quantifier (errors) and are not judged here. 'Untouched' = same inode and same bytes as before the link.",
     "engine": "tlc",
 }
@@ -30,15 +31,23 @@ def select(s):
             and lc.PHASES.index(s["faultAt"]) <= lc.PHASES.index("written"))
 
 
+def select_changed(s):
+    """The link itself succeeds, but an input it read was modified meanwhile: verify_inputs_unchanged fails AFTER the
+    complete output was written (InputsChangedError in Lifecycle.tla) - still a failed link."""
+    return not s["symlink"] and s["changeAt"] != "none" and s["holder"] == "none"
+
+
 def judge(scn, adm, obs):
     out = []
     if obs["exitZero"]:
-        return out          # C17's business
+        return out          # C17's / C20's business
     allowed = {(a["outClass"], a["outInode"]) for a in adm if not a["exitZero"]}
     got = (obs["outClass"], obs["outInode"])
     if got not in allowed:
-        out.append((f"leaves-{obs['outClass']}:{lc.stage_of(scn)}:prior-{scn['prior']}",
-                    f"failed link ({scn['faultKind']} at {scn['faultAt']}) left a {obs['outClass']} file ({obs['outInode']} inode) at the output path; admissible: {sorted(allowed)}"))
+        stage = lc.stage_of(scn) if scn["changeAt"] == "none" else "input-changed"
+        what = f"{scn['faultKind']} at {scn['faultAt']}" if scn["changeAt"] == "none" else f"input modified after '{scn['changeAt']}'"
+        out.append((f"leaves-{obs['outClass']}:{stage}:prior-{scn['prior']}",
+                    f"failed link ({what}) left a {obs['outClass']} file ({obs['outInode']} inode) at the output path; admissible: {sorted(allowed)}"))
     return out
 
 
@@ -105,6 +114,11 @@ def run(ctx):
     cov = {}
     cov["anti_vacuity"] = [lc.anti_vacuity("mc/Lifecycle_noCleanupOnFailure.cfg", "FailureLeavesNoOutput")]
     lc.replay(ctx, PROP, select, judge, n_quick=160, n_thorough=3000, cov=cov)
+    cov2 = {}
+    lc.replay(ctx, PROP, select_changed, judge, n_quick=48, n_thorough=1500, cov=cov2)
+    cov["changed_input_scenarios_in_model"] = cov2["scenarios_in_model"]
+    cov["changed_input_scenarios_replayed"] = cov2["traces_validated_against_impl"]
+    cov["traces_validated_against_impl"] += cov2["traces_validated_against_impl"]
     natural_failures(ctx, cov)
     cov = lc.generic_cov(cov)
     cov["evaluations"] += cov["natural_failures_run"]
